@@ -45,27 +45,6 @@ func (o dmOpts) info() map[string]interface{} {
 	return map[string]interface{}{"text": o.text, "text_hex": fmt.Sprintf("%x", latin1Bytes(o.text)), "shape": dmShapeName[o.shape], "min_rows_cols": o.min, "max_rows_cols": o.max}
 }
 
-func latin1Bytes(s string) []byte {
-	out := make([]byte, 0, len(s))
-	for _, r := range s {
-		if r > 0xFF {
-			out = append(out, '?')
-		} else {
-			out = append(out, byte(r))
-		}
-	}
-	return out
-}
-
-func isLatin1(s string) bool {
-	for _, r := range s {
-		if r > 0xFF || r == 0xFFFD {
-			return false
-		}
-	}
-	return true
-}
-
 // largest data capacity among the symbols the hints admit (0 if none)
 func dmMaxCapacity(o dmOpts) int {
 	best := 0
@@ -478,14 +457,4 @@ func c02(c *fw.Ctx) {
 	for _, s := range dmref.Symbols() {
 		c.Floor(fmt.Sprintf("size_%03dx%03d", s.Rows, s.Cols), 1)
 	}
-}
-
-func latin1Raw(s string) string { return string(latin1Bytes(s)) }
-
-func latin1String(raw string) string {
-	rs := make([]rune, len(raw))
-	for i := 0; i < len(raw); i++ {
-		rs[i] = rune(raw[i])
-	}
-	return string(rs)
 }
